@@ -413,7 +413,7 @@ def plan(tier, seed):
             cases.append(dict(c, part="A", backend="pandas"))
     for c in espace.plan_shards(tier, parsers=True, quick_pairs=("frame",) if tier == "quick" else (), thorough_combos=tc):
         cases.append(dict(c, part="A", backend="pandas"))
-    for c in espace.plan_shards(tier, parsers=True, bases=["frame", "column", "column_str"], quick_pairs=(), thorough_combos=tc):
+    for c in espace.plan_shards(tier, parsers=True, bases=["frame", "column", "column_str", "frame_parsing"], quick_pairs=(), thorough_combos=tc):
         cases.append(dict(c, part="A", backend="polars"))
     cases.append({"part": "nonframe"})
     bound = 1 if tier == "quick" else 2
